@@ -304,6 +304,37 @@ def backoffExt (jn jd : Nat) : Ext
 def backoffEnv (b : Backoff) (attempt : Int) : Env :=
   [("b.minDelay", .int b.minDelay), ("b.maxDelay", .int b.maxDelay), ("attempt", .int attempt)]
 
+/-! ### closeInFlight -/
+
+/-- One `inflight` entry: the request's id and whether its mailbox (`ready`, capacity 1) still has room. -/
+def reqVal (e : NId × Bool) : Val := .tag "req" (.cons (encKey e.1) (.bool e.2))
+
+def encInflight (es : List (NId × Bool)) : Val := Val.ofList (es.map fun e => .cons (encKey e.1) (reqVal e))
+
+/-- The connection-error response `closeInFlight` builds for id `k`. -/
+def connErrResp (k : NId) : Val :=
+  .tag "resp" (Val.ofList [.cons (.str "Jsonrpc") (.str "2.0"), .cons (.str "ID") (encKey k),
+    .cons (.str "Error") (.tag "rpcerr" (Val.ofList [.cons (.str "Message") (.str "handler: websocket connection closed"),
+      .cons (.str "Code") (.int (-1111111))]))])
+
+def deliverFx (k : NId) : Val := .cons (.str "deliver") (.cons (encKey k) (connErrResp k))
+
+/-- `select { case ch <- v: … default: … }` tries the send: it succeeds iff the mailbox has room, and never blocks. -/
+def sweepExt : Ext
+  | ".ready", [.tag "req" x], env => .ok (.tag "mailbox" x) env
+  | "trysend", [.tag "mailbox" (.cons id (.bool room)), resp], env =>
+    if room then .ok (.bool true) (logFx env (.cons (.str "deliver") (.cons id resp))) else .ok (.bool false) env
+  | "lit:clientResponse", kvs, env => .ok (.tag "resp" (Val.ofList (kvs.map kvOf))) env
+  | "lit:JSONRPCError", kvs, env => .ok (.tag "rpcerr" (Val.ofList (kvs.map kvOf))) env
+  | "&", [v], env => .ok v env
+  | "lit:map[interface{}]clientRequest", [], env => .ok .nil env
+  | "lit:map[interface{}]context.CancelFunc", [], env => .ok .nil env
+  | "cancel", [], env => .ok .nil (logFx env (.cons (.str "cancel") ((env.get "cancel").getD .nil)))
+  | fn, _, _ => .stuck fn
+
+def sweepEnv (es : List (NId × Bool)) (hs : List NId) : Env :=
+  [("c.inflight", encInflight es), ("c.handling", encHandling hs)]
+
 /-! ### client options -/
 
 /-- The client options that touch reconnection and keepalive. -/
